@@ -22,8 +22,8 @@ pub fn prop() -> Prop {
         "Outputs are deterministic across processes",
         "Cases: a seed-determined workload of inputs (valid generated schemas; the same with token/text mutations; \
          grammatical but semantically arbitrary documents, plain and mutated; an operation document validated against a \
-         generated valid schema; files of apollo-compiler/test_data, plain and mutated; apollo-smith byte strings), each \
-         regenerated and processed in N fresh processes (4 quick, 12 thorough) with per-process hash keys. Oracle: for \
+         generated valid schema; operations with several unused / undefined variables and fragments against a generated schema; files of apollo-compiler/test_data, plain and mutated; apollo-smith byte strings), each \
+         regenerated and processed in N fresh processes (quick: 2000 inputs x 4 processes, thorough: 10000 x 16) with per-process hash keys. Oracle: for \
          every input and every observable part (AST serialization and parse errors, Schema serialization, \
          ExecutableDocument serialization, DiagnosticList Display text in order, to_json of every diagnostic, full \
          introspection JSON of valid schemas, apollo-smith output) all processes print the same FNV digest. \
@@ -249,7 +249,37 @@ fn smith_text(bytes: &[u8]) -> String {
 pub fn gen_input(bytes: &[u8]) -> Input {
     let mut c = Choices::new(bytes);
     let opts = gschema::Opts { max_types: 4, ..Default::default() };
-    match c.weighted(&[18, 16, 14, 10, 16, 14, 12]) {
+    match c.weighted(&[18, 16, 14, 10, 16, 14, 12, 10]) {
+        7 => {
+            // operations whose diagnostics come out of set/map-shaped bookkeeping: several unused and
+            // undefined variables, unused and undefined fragments, repeated names
+            let sd = gschema::schema(&mut c, &opts);
+            const VARS: [&str; 12] = ["a", "b", "c", "id", "first", "after", "v0", "v1", "v2", "v3", "longer_name_42", "_x"];
+            const TYPES: [&str; 6] = ["Int", "String", "Boolean", "ID", "[Int!]", "Float"];
+            let mut text = String::new();
+            let nops = 1 + c.choose(3);
+            for o in 0..nops {
+                let nv = 2 + c.choose(7);
+                let mut order: Vec<usize> = (0..VARS.len()).collect();
+                for i in 0..nv {
+                    let j = i + c.choose(VARS.len() - i);
+                    order.swap(i, j);
+                }
+                let defs: Vec<String> = order[..nv].iter().map(|&i| format!("${}: {}", VARS[i], TYPES[c.choose(TYPES.len())])).collect();
+                let mut sel = String::from("__typename");
+                for k in 0..c.choose(4) {
+                    sel.push_str(&format!(" a{}: __typename @skip(if: ${})", k, if c.coin() { VARS[order[c.choose(nv)]] } else { ["undef1", "undef2", "undef3"][c.choose(3)] }));
+                }
+                for _ in 0..c.choose(3) {
+                    sel.push_str(&format!(" ...{}", ["Missing1", "Missing2", "U0", "U1"][c.choose(4)]));
+                }
+                text.push_str(&format!("query Op{}({}) {{ {} }}\n", if c.bool(40) { 0 } else { o }, defs.join(", "), sel));
+            }
+            for f in 0..c.choose(5) {
+                text.push_str(&format!("fragment U{} on Query {{ __typename b: __typename @include(if: ${}) }}\n", if c.bool(40) { 0 } else { f }, VARS[c.choose(VARS.len())]));
+            }
+            Input { kind: "variables-and-fragments", text, against: Some(printer::print_document(&sd)), smith: None }
+        }
         0 => {
             let mut d = gschema::schema(&mut c, &opts);
             if c.coin() {
@@ -474,7 +504,7 @@ pub fn check_input(bytes: &[u8], ctx: &mut Ctx) -> Outcome {
 
 fn custom(cfg: &RunCfg) -> CustomReport {
     let mut rep = CustomReport::new();
-    let (count, procs): (u64, usize) = if cfg.tier == Tier::Quick { (300, 4) } else { (3000, 12) };
+    let (count, procs): (u64, usize) = if cfg.tier == Tier::Quick { (2000, 4) } else { (10_000, 16) };
     let count = std::env::var("VERIF_C22_COUNT").ok().and_then(|s| s.parse().ok()).unwrap_or(count);
     // every process regenerates the whole workload; a process is split into `slices` children so that
     // the machine is used, and every (process, slice) child is a fresh process with fresh keys
